@@ -16,8 +16,29 @@ pub struct Out {
     pub rfail: u64,
 }
 
+/// File holding the input of the case that is running right now (`<outfile>.current`).  A case that
+/// makes the real code *abort* the process (allocation failure, stack overflow, double panic) cannot be
+/// caught per case; `./check` reads this file when a lane dies on a signal and reports its content as the
+/// failing input.
+static CURRENT: std::sync::OnceLock<std::sync::Mutex<std::fs::File>> = std::sync::OnceLock::new();
+
+/// record the input about to be handed to the real code (cheap: truncate + one write, no sync)
+pub fn mark(input: &str) {
+    use std::io::{Seek, SeekFrom};
+    if let Some(m) = CURRENT.get() {
+        if let Ok(mut f) = m.lock() {
+            let _ = f.set_len(0);
+            let _ = f.seek(SeekFrom::Start(0));
+            let _ = f.write_all(input.as_bytes());
+        }
+    }
+}
+
 impl Out {
     pub fn new(path: &str) -> Out {
+        if let Ok(f) = std::fs::File::create(format!("{}.current", path)) {
+            let _ = CURRENT.set(std::sync::Mutex::new(f));
+        }
         Out {
             w: std::io::BufWriter::new(std::fs::File::create(path).expect("create lane output")),
             stats: BTreeMap::new(),
